@@ -5,7 +5,7 @@
    strict_total ltb := irreflexive, transitive, incomparable elements are equal (the dtype's < ; NaN-free) *)
 From Coq Require Import ZArith List Bool.
 From EV Require Import Res Arr Spans SpansSpec SpansBase SpansRef SpansField SpansKernels SpansIndexed SpansOrder
-  SpansReduce SpansMerge SpansIndexedReduce SpansMain SpansSorted SpansFilter SpansRle SpansRleProofs SpansRleReduce SpansRepr SpansReprProofs.
+  SpansReduce SpansMerge SpansIndexedReduce SpansMain SpansSorted SpansFilter SpansRle SpansRleProofs SpansRleReduce SpansRepr SpansReprProofs SpansTotals.
 Import ListNotations.
 Open Scope Z_scope.
 
@@ -105,6 +105,23 @@ Print Assumptions is_spans_valid.
 Theorem spans_in_range : forall (A:Type) (d:A) (xs:list A) sp k, is_spans d xs sp -> In k sp -> 0 <= k <= len xs.
 Proof. exact (@is_spans_range_pf). Qed.
 Print Assumptions spans_in_range.
+
+(* (full, whole column) span sizes telescope: for any span list the counts add up to last - first; for
+   the span list of a column (is_spans: what every get_spans entry point returns) the kernel's counts add up
+   to the row count, i.e. no row lies outside every span or in two spans *)
+Theorem count_ref_sum : forall sp, 1 <= len sp -> sumZ (count_ref sp) = nthZ sp (len sp - 1) - nthZ sp 0.
+Proof. exact count_ref_sum_pf. Qed.
+Print Assumptions count_ref_sum.
+Theorem apply_spans_counts_sum_to_rows : forall (A:Type) (d:A) (xs:list A) sp cs,
+  is_spans d xs sp -> apply_spans_count sp = Ok cs -> sumZ cs = len xs.
+Proof.
+  intros A d xs sp cs Hs Hc. pose proof Hs as (_ & Hl & _).
+  rewrite (apply_spans_count_ref sp Hl) in Hc. injection Hc as <-. exact (counts_sum_to_rows_pf d xs sp Hs).
+Qed.
+Print Assumptions apply_spans_counts_sum_to_rows.
+Example apply_spans_counts_sum_to_rows_ex :
+  apply_spans_count [0; 2; 3; 6] = Ok [2; 1; 3] /\ sumZ [2; 1; 3] = len [7; 7; 8; 9; 9; 9].
+Proof. vm_compute. split; reflexivity. Qed.
 
 (* ---- 8. reductions: one entry per span, computed from exactly the rows slice xs sp[i] sp[i+1] ------------- *)
 (* reduce_spans f sp xs = [ f sp[i] (rows sp[i] .. sp[i+1]-1) | i ];  valid_spans = strictly increasing, within [0, n] *)
